@@ -53,7 +53,7 @@ def run(ctx):
     ctx.anchor(ctx.fn1('Oomd::Engine::Engine::addDropInConfig'), 'tag', 'unit')
     ctx.anchor(ctx.fn1('Oomd::Engine::Engine::addDropInRuleset'), 'it')
     ctx.anchor(ctx.fn1('Oomd::Engine::Ruleset::mergeWithDropIn'), 'ruleset')
-    ctx.anchor(ctx.fn1('Oomd::Config2::compileDropIn'), 'target', 'compiled_drop', 'found_target', 'ret', 'root', 'dropin')
+    ctx.anchor(ctx.fn1('Oomd::Config2::compileDropIn'), 'target', 'compiled_drop', 'ret', 'root', 'dropin')
     ctx.anchor(ctx.fn1('Oomd::DropInServiceAdaptor::updateDropIns'), 'unit', 'tag')
     P = ctx.prog
     # ------------------------------------------------ addDropInRuleset
@@ -271,19 +271,49 @@ def run(ctx):
     # ------------------------------------------------ compileDropIn
     cd = ctx.fn1("Oomd::Config2::compileDropIn")
     Xc = Expander(P, cd)
+    # the per-drop-in "was a base found" state: the local written under the name-equality test inside the search over root.rulesets
+    outer_l = [l for l in loops(cd) if l["stmt"] is not None and "dropin.rulesets" in loop_header(cd, l)]
+    inner_l = [l for l in loops(cd) if l["stmt"] is not None and "root.rulesets" in loop_header(cd, l)]
+    fv = None
+    if len(outer_l) == 1 and len(inner_l) == 1:
+        f0 = Flow(P, cd, cg=ctx.cg)
+        cands = []
+        for i, n in enumerate(cd.nodes):
+            if n["k"] == "bin" and n.get("op") == "=" and cd.pos_of(i) is not None and inner_l[0]["stmt"] in list(cd.ancestors(i)):
+                l_ = cd.nodes[cd.strip(n["l"])]
+                if l_["k"] == "ref" and l_.get("dk") == "local" and any(p is True and ".name" in k and "==" in k for k, p in f0.guards(i)):
+                    cands.append(l_)
+        names = sorted({c["name"] for c in cands})
+        if len(names) == 1:
+            fv = names[0]
+            d_, v_ = cd.vardecl(cands[0]["decl"])
+            dpos = cd.pos_of(d_) if d_ is not None else None
+            per_iter = d_ is not None and outer_l[0]["stmt"] in list(cd.ancestors(d_))
+            if not per_iter:
+                # declared outside: then it has to be reset at the top of every iteration, before the search
+                resets = [w for w in local_writes(cd, fv, must=False) if cd.pos_of(w) is not None and outer_l[0]["stmt"] in list(cd.ancestors(w)) and inner_l[0]["stmt"] not in list(cd.ancestors(w))]
+                fr_ = iter_flow(ctx, cd, outer_l[0], {w: [("set", "reset")] for w in resets})
+                per_iter = bool(resets) and all(fr_.must(cd.nodes[inner_l[0]["stmt"]].get("range", inner_l[0]["stmt"]), "reset") for _ in [0]) if resets else False
+            ctx.check(per_iter, "dropin:target-lookup-is-per-ruleset", "scope / per-iteration reset", cd.loc(d_) if d_ is not None else cd.loc(),
+                      "the 'base found' state (%s) starts afresh for every ruleset of the drop-in" % fv,
+                      "the 'base found' state (%s) lives across the iterations over the drop-in's rulesets and is not reset: a ruleset whose target does not "
+                      "exist inherits the base found for the previous one, so a file naming an unknown ruleset is accepted and merged onto the wrong base" % fv)
+    if fv is None:
+        ctx.broken("dropin:target-lookup-is-per-ruleset", "anchor", cd.loc(), "cannot identify the 'base found' state of the target search in compileDropIn")
+        fv = "?"
     fc = Flow(P, cd, cg=ctx.cg, edge_tokens=lambda k, p: ["merge-refused"] if ("mergeWithDropIn(" in k and p is False) else (
         ["compile-failed"] if (k in ("target", "compiled_drop", "compiled_prekill_hook_plugin") and p is False) else (
-            ["no-target"] if (k == "found_target" and p is False) else None)))
+            ["no-target"] if (k in (fv, "(%s != nullptr)" % fv, "(nullptr != %s)" % fv) and p is False) or (k in ("(%s == nullptr)" % fv, "(nullptr == %s)" % fv) and p is True) else None)))
     cr = cd.calls("compileRuleset")
     tg = [i for i in cr if cd.text(cd.nodes[i]["args"][1]) == "false"]
     dr = [i for i in cr if cd.text(cd.nodes[i]["args"][1]) == "true"]
-    ctx.check(len(tg) == 1 and Xc(cd.nodes[tg[0]]["args"][0]) == "elem(param:root.rulesets)", "dropin:target-is-fresh-base-copy", "provenance",
+    ctx.check(len(tg) == 1 and Xc(cd.nodes[tg[0]]["args"][0]) in ("elem(param:root.rulesets)", "*var:%s" % fv, "*%s" % fv), "dropin:target-is-fresh-base-copy", "provenance",
               cd.loc(tg[0]) if tg else cd.loc(), "the target is a fresh compile of the base ruleset's IR", "target is not compileRuleset(base IR, false)")
     ctx.check(len(dr) == 1 and Xc(cd.nodes[dr[0]]["args"][0]) == "elem(param:dropin.rulesets)", "dropin:compiled-from-dropin-ir", "provenance",
               cd.loc(dr[0]) if dr else cd.loc(), "the override is compiled from the drop-in IR", "override is not compiled from the drop-in IR")
     for i in tg:
         g = fc.guards(i)
-        ctx.check(any(p is True and ".name" in k and "==" in k for k, p in g), "dropin:target-by-name", "guarded_by", cd.loc(i),
+        ctx.check(any(p is True and ".name" in k and "==" in k for k, p in g) or Xc(cd.nodes[i]["args"][0]) in ("*var:%s" % fv, "*%s" % fv), "dropin:target-by-name", "guarded_by", cd.loc(i),
                   "the base is selected by name equality", "base selected without name comparison")
     mgc = cd.calls("Ruleset::mergeWithDropIn")
     ctx.check(len(mgc) == 1 and Xc(cd.nodes[mgc[0]]["recv"]).startswith("Oomd::Config2::compileRuleset(elem(param:root.rulesets), false")
